@@ -200,7 +200,9 @@ func propC20(c *Ctx) {
 					r, n := p.Relation(len(p.Events), keyIs("builtin.len("+inner+".0)"), keyIs("1"))
 					return n > 0 && r == rEQ
 				}() &&
-				p.HasFact(len(p.Events), func(a *Term, pol bool) bool { return pol && a.Key() == inner+".0[0].(*opchild/types.MsgUpdateOracle).1" })
+				p.HasFact(len(p.Events), func(a *Term, pol bool) bool {
+					return pol && a.Key() == inner+".0[0].(*opchild/types.MsgUpdateOracle).1"
+				})
 			if !one || !(direct || wrapped) {
 				o.Fail(c.W.Pos(fn.Pos()), fmt.Sprintf("matches without: exactly one message [%v] and (MsgUpdateOracle [%v] or single-message MsgExec of MsgUpdateOracle [%v])", one, direct, wrapped), c.Dump(p, -1))
 			}
@@ -318,8 +320,12 @@ func propC20(c *Ctx) {
 			notSim := p.HasFact(len(p.Events), func(a *Term, pol bool) bool { return !pol && a.Key() == "simulate" })
 			active := (chk || rechk) && notSim
 			inactive := noChk || sim
-			deps := p.Find(func(ev *Event) bool { return ev.Kind == EvCall && strings.HasSuffix(ev.Call.Name, "MsgServer).FinalizeTokenDeposit") })
-			nextCalls := p.Find(func(ev *Event) bool { return ev.Kind == EvCall && ev.Call.Name == "dynamic" && strip(ev.Fun).Key() == "next" })
+			deps := p.Find(func(ev *Event) bool {
+				return ev.Kind == EvCall && strings.HasSuffix(ev.Call.Name, "MsgServer).FinalizeTokenDeposit")
+			})
+			nextCalls := p.Find(func(ev *Event) bool {
+				return ev.Kind == EvCall && ev.Call.Name == "dynamic" && strip(ev.Fun).Key() == "next"
+			})
 			if inactive && len(deps) > 0 {
 				o.Fail(c.W.Pos(fn.Pos()), "deposit messages are executed outside check mode / in simulation", c.Dump(p, -1))
 			}
@@ -372,7 +378,9 @@ func propC20(c *Ctx) {
 		// each check mode alone activates the filter
 		chkAlone, rechkAlone := false, false
 		for _, p := range c.Paths(fn, po) {
-			if len(p.Find(func(ev *Event) bool { return ev.Kind == EvCall && strings.HasSuffix(ev.Call.Name, "MsgServer).FinalizeTokenDeposit") })) == 0 {
+			if len(p.Find(func(ev *Event) bool {
+				return ev.Kind == EvCall && strings.HasSuffix(ev.Call.Name, "MsgServer).FinalizeTokenDeposit")
+			})) == 0 {
 				continue
 			}
 			chk := p.HasFact(len(p.Events), func(a *Term, pol bool) bool { return pol && a.Key() == "(sdk.Context).IsCheckTx(ctx)" })
